@@ -382,3 +382,7 @@ func VerifH_C10_api_session_transition() {
 	vrt.Covered("sessions-compared")
 	_ = f.Close()
 }
+
+// the session of VerifH_C16_api_session_refused_upsert seen from C10: a session whose first modification is refused
+// and whose second is accepted yields the previous content with exactly the accepted modification applied
+func VerifH_C10_api_session_refused_then_accepted() { VerifH_C16_api_session_refused_upsert() }
